@@ -294,6 +294,15 @@ fn front_end(
                 {
                     f.invalid_outputs_not_judged += 1;
                 }
+                // the composed component stored and used as a package of a later composition
+                // ("decoding any byte string as a package"): with dependencies defined it
+                // holds components that hold modules, with sections of their own after them
+                note("decode-own-output", tag);
+                let mut types = wac_types::Types::default();
+                match wac_types::Package::from_bytes("test:composed", None, bytes, &mut types) {
+                    Ok(_) => f.triples.push(format!("decode-own-output:{stage}|ok")),
+                    Err(_) => f.triples.push(format!("decode-own-output:{stage}|err")),
+                }
             }
             Err(e) => {
                 f.triples.push(format!("{stage}|err:{}", variant_name(&format!("{e:?}"))));
